@@ -297,31 +297,95 @@ def hidden_state(prog, roots, allow=()):
                             local.add(x.id)
         modname = f.module.name
         params = {a.arg for a in fn.args.args + fn.args.kwonlyargs + fn.args.posonlyargs} - {"self", "cls"}
-        # which parameters a local name depends on (flow-insensitive def-use closure)
+        # what a local name depends on: ACCESS PATHS into the parameters (`p`, `p[0]`, `p[1:][:32]`, `len(p)`, `p.attr`), by a
+        # flow-insensitive def-use closure that includes control dependence (a value assigned under `if version == 2` depends
+        # on what `version` was read from). "The key determines the value" is then: every path the value reads is a path (or
+        # inside a path) the key holds.
         dep = {p_: {p_} for p_ in params}
-        changed = True
-        while changed:
-            changed = False
-            for st in ast.walk(fn):
-                if isinstance(st, (ast.Assign, ast.AnnAssign, ast.AugAssign)) and getattr(st, "value", None) is not None:
-                    src = set()
-                    for x in ast.walk(st.value):
-                        if isinstance(x, ast.Name):
-                            src |= dep.get(x.id, set())
-                    tg = st.targets if isinstance(st, ast.Assign) else [st.target]
-                    for t in tg:
-                        for x in ast.walk(t):
-                            if isinstance(x, ast.Name) and isinstance(x.ctx, ast.Store):
-                                if not src <= dep.get(x.id, set()):
-                                    dep[x.id] = dep.get(x.id, set()) | src
-                                    changed = True
 
-        def deps(e):
+        APPROX = "[\u2026]"  # "some part of": a path cut short. As something READ it needs the whole prefix in the key; as a key path it covers nothing.
+
+        def _ext(a_, suffix):
+            if a_.endswith(APPROX):
+                return a_
+            if a_.count("[") + a_.count(".") >= 3:
+                return a_ + APPROX
+            return a_ + suffix
+
+        def _cap(paths):
+            if len(paths) <= 48:
+                return paths
+            import re as _re
+            return {_re.split(r"[\[.]", a_[4:] if a_.startswith("len(") else a_, 1)[0].rstrip(")") + APPROX for a_ in paths}
+
+        def atoms(e):
+            if isinstance(e, ast.Name):
+                return set(dep.get(e.id, set()))
+            if isinstance(e, ast.Subscript) and not any(isinstance(x, ast.Name) for x in ast.walk(e.slice)):
+                return _cap({_ext(a_, "[" + ast.unparse(e.slice) + "]") for a_ in atoms(e.value)})
+            if isinstance(e, ast.Attribute):
+                return _cap({_ext(a_, "." + e.attr) for a_ in atoms(e.value)})
+            if isinstance(e, ast.Call) and isinstance(e.func, ast.Name) and e.func.id == "len" and len(e.args) == 1 and not e.keywords:
+                return _cap({a_ if a_.endswith(APPROX) else "len(" + a_ + ")" for a_ in atoms(e.args[0])})
             out_ = set()
-            for x in ast.walk(e):
-                if isinstance(x, ast.Name):
-                    out_ |= dep.get(x.id, set())
-            return out_
+            for c_ in ast.iter_child_nodes(e):
+                if isinstance(c_, (ast.expr, ast.comprehension, ast.keyword)):
+                    out_ |= atoms(c_)
+            return _cap(out_)
+
+        def walk_ctl(stmts, ctl):
+            """(statement, control-dependence expressions) for every statement, outermost first."""
+            for st_ in stmts:
+                yield st_, ctl
+                if isinstance(st_, (ast.If, ast.While)):
+                    yield from walk_ctl(st_.body, ctl + [st_.test])
+                    yield from walk_ctl(st_.orelse, ctl + [st_.test])
+                elif isinstance(st_, ast.For):
+                    yield from walk_ctl(st_.body, ctl + [st_.iter])
+                    yield from walk_ctl(st_.orelse, ctl + [st_.iter])
+                elif isinstance(st_, ast.Try):
+                    yield from walk_ctl(st_.body, ctl)
+                    for h_ in st_.handlers:
+                        yield from walk_ctl(h_.body, ctl)
+                    yield from walk_ctl(st_.orelse, ctl)
+                    yield from walk_ctl(st_.finalbody, ctl)
+                elif isinstance(st_, ast.With):
+                    yield from walk_ctl(st_.body, ctl)
+        ctl_of = {}
+        changed = True
+        rounds = 0
+        while changed and rounds < 12:
+            changed = False
+            rounds += 1
+            for st, ctl in walk_ctl(fn.body, []):
+                ctl_of[id(st)] = ctl
+                if isinstance(st, (ast.Assign, ast.AnnAssign, ast.AugAssign)) and getattr(st, "value", None) is not None:
+                    src = atoms(st.value)
+                    for c_ in ctl:
+                        src |= atoms(c_)
+                    tg = st.targets if isinstance(st, ast.Assign) else [st.target]
+                elif isinstance(st, ast.For):
+                    src = atoms(st.iter)
+                    tg = [st.target]
+                else:
+                    continue
+                for t in tg:
+                    for x in ast.walk(t):
+                        if isinstance(x, ast.Name) and isinstance(x.ctx, ast.Store):
+                            if not src <= dep.get(x.id, set()):
+                                dep[x.id] = dep.get(x.id, set()) | src
+                                changed = True
+
+        class _Deps(set):
+            """set of access paths; a <= b when every path of a is a path of b or lies inside one (b holds `p`, a reads `p[0]`)."""
+            def __le__(self, other):
+                return all(any(not y.endswith(APPROX) and (x == y or x.startswith(y + "[") or x.startswith(y + ".")) for y in other) for x in self)
+
+        def deps(e, st=None):
+            out_ = _Deps(atoms(e))
+            for c_ in ctl_of.get(id(st), []) if st is not None else []:
+                out_ |= atoms(c_)
+            return _Deps(out_)
 
         for st in ast.walk(fn):
             if isinstance(st, (ast.Assign, ast.AugAssign, ast.AnnAssign)):
@@ -333,15 +397,15 @@ def hidden_state(prog, roots, allow=()):
                             out.append((f, st, "assigns the module-level name %s a value that depends on its arguments / on earlier calls" % t.id))
                     if isinstance(t, ast.Subscript) and isinstance(t.value, ast.Name) and t.value.id not in local and t.value.id not in allow and module_container(modname, t.value.id):
                         # a memo table is fine when the key determines the value: every argument the value depends on is in the key
-                        if isinstance(st, ast.AugAssign) or getattr(st, "value", None) is None or not deps(st.value) <= deps(t.slice):
+                        if isinstance(st, ast.AugAssign) or getattr(st, "value", None) is None or not deps(st.value, st) <= deps(t.slice):
                             out.append((f, st, "stores into the module-level container %s a value that depends on arguments (%s) missing from the key" % (
-                                t.value.id, ", ".join(sorted(deps(st.value) - deps(t.slice))) if getattr(st, "value", None) is not None else "?")))
+                                t.value.id, ", ".join(sorted(x for x in deps(st.value, st) if not _Deps([x]) <= deps(t.slice))) if getattr(st, "value", None) is not None else "?")))
             if isinstance(st, ast.Call) and isinstance(st.func, ast.Attribute) and st.func.attr in _MUTATING_METHODS and isinstance(st.func.value, ast.Name):
                 nm = st.func.value.id
                 if nm not in local and nm not in allow and module_container(modname, nm):
                     memo_ok = False
                     if st.func.attr == "add" and len(st.args) == 1:
-                        memo_ok = params <= deps(st.args[0])  # "seen and found good" is only sound when the key holds every argument
+                        memo_ok = _Deps(params) <= deps(st.args[0])  # "seen and found good" is only sound when the key holds every argument
                     if st.func.attr == "setdefault" and len(st.args) == 2:
                         memo_ok = deps(st.args[1]) <= deps(st.args[0])
                     if not memo_ok:
@@ -363,9 +427,125 @@ def hidden_state(prog, roots, allow=()):
                                 not any(k.arg == "mode" and not (isinstance(k.value, ast.Constant) and k.value.value in ("r", "rb", "rt")) for k in x.keywords):
                             continue  # reading a data file of the package itself (next to the module): part of the program, not of the world
                         out.append((f, x, "is memoised but asks the outside world (%s): a later call gets the first answer again" % cn))
+            # a memoised function hands every caller the SAME object: if that object is mutable (a dict / list / set / bytearray
+            # built in the function), one caller's edits are what the next caller gets back
+            def mutable_expr(e, depth=0):
+                if isinstance(e, (ast.Dict, ast.List, ast.Set, ast.ListComp, ast.DictComp, ast.SetComp)):
+                    return True
+                if isinstance(e, ast.Call) and (dotted_parts(e.func) or [""])[-1] in ("dict", "list", "set", "bytearray", "deque", "defaultdict", "OrderedDict"):
+                    return True
+                if isinstance(e, ast.IfExp):
+                    return mutable_expr(e.body, depth) or mutable_expr(e.orelse, depth)
+                if isinstance(e, ast.Name) and depth < 3:
+                    for y in ast.walk(fn):
+                        if isinstance(y, ast.Assign) and any(isinstance(t_, ast.Name) and t_.id == e.id for t_ in y.targets) and mutable_expr(y.value, depth + 1):
+                            return True
+                return False
+            for x in ast.walk(fn) if decos & {"lru_cache", "cache"} else ():  # cached_property caches per object, not per process
+                if isinstance(x, ast.Return) and x.value is not None and mutable_expr(x.value):
+                    out.append((f, x, "is memoised but returns a mutable object (%s): every caller gets the same object, and a caller's edits come back from the cache" % ast.unparse(x.value)[:50]))
+                    break
             for x in ast.walk(fn):
                 if isinstance(x, ast.Name) and isinstance(x.ctx, ast.Load) and x.id not in local and (modname, x.id) in reassigned and x.id not in allow:
                     out.append((f, x, "is memoised but reads the module-level name %s, which %s() re-assigns: the cached result goes stale" % (x.id, reassigned[(modname, x.id)])))
+    return out
+
+
+def without_handler_flows(summary):
+    """The summary under the scripted assumption that no exception handler ran: every `except` condition (an opaque "a
+    primitive of this try body raised") is false in guards and values. Returns an object with `.exits` for strict_outcome()."""
+    from .evalr import Exit
+
+    def no_exc(t):
+        return False if isinstance(t, T) and t.op == "except" else None
+
+    class _S:
+        pass
+    out = _S()
+    out.exits = []
+    for e in summary.exits:
+        g = [tm.subst(x, no_exc) for x in e.guard]
+        if any(x is False for x in g):
+            continue
+        g = tuple(x for x in g if x is not True)
+        v = tm.subst(e.value, no_exc) if isinstance(e.value, (T, list, tuple, dict)) else e.value
+        out.exits.append(Exit(g, e.kind, v, e.node, e.func, e.exc, facts=e.facts))
+    return out
+
+
+def check_hidden_state(ctx, oid, qualnames, allow=()):
+    """The obligation form of hidden_state() for a property: the anchored functions and everything they reach keep no
+    module-level state between calls."""
+    fis = [ctx.fn(q) for q in qualnames]
+    hs = hidden_state(ctx.prog, fis, allow=allow)
+    ctx.R.check(oid, "OWN", hs[0][0] if hs else fis[0], "no module-level state is written on these paths: %s and what they call (results do not depend on earlier calls)" % ", ".join(q.rsplit(".", 1)[-1] for q in qualnames),
+                not hs, "%s %s" % ((hs[0][0].qualname, hs[0][2]) if hs else ("", "")), line=hs[0][1].lineno if hs else None,
+                example="the same call repeated in one process after a call with other arguments / a failed call")
+
+
+def unguarded_raisers(fnode, safe_calls=("isinstance", "len", "type", "bool", "bytes", "callable")):
+    """In a predicate that owes an answer for EVERY input and keeps that promise with a catch-all handler: the expressions that
+    are evaluated OUTSIDE any try statement with a catch-all handler and can raise on some input -- calls (other than a few
+    total built-ins and logging), indexing with a non-slice subscript, division / modulo. Returns [(node, text)]."""
+    import ast
+    out = []
+
+    def catch_all(t):
+        return any(h.type is None or (isinstance(h.type, ast.Name) and h.type.id in ("Exception", "BaseException")) or
+                   (isinstance(h.type, ast.Tuple) and any(isinstance(e, ast.Name) and e.id in ("Exception", "BaseException") for e in h.type.elts)) for h in t.handlers)
+
+    def scan_expr(e):
+        for n in ast.walk(e):
+            if isinstance(n, ast.Call):
+                f = n.func
+                nm = f.id if isinstance(f, ast.Name) else None
+                if nm in safe_calls:
+                    continue
+                if isinstance(f, ast.Attribute) and isinstance(f.value, ast.Name) and f.value.id in ("log", "logger", "logging"):
+                    continue
+                out.append((n, ast.unparse(n)[:80]))
+            elif isinstance(n, ast.Subscript) and not isinstance(n.slice, ast.Slice) and isinstance(n.ctx, ast.Load):
+                out.append((n, ast.unparse(n)[:80]))
+            elif isinstance(n, ast.BinOp) and isinstance(n.op, (ast.Div, ast.FloorDiv, ast.Mod)):
+                out.append((n, ast.unparse(n)[:80]))
+
+    def scan(stmts):
+        for st in stmts:
+            if isinstance(st, ast.Try) and catch_all(st):
+                scan(st.finalbody)
+                for h in st.handlers:
+                    pass  # handler bodies are the business of raising_handlers()
+                continue
+            if isinstance(st, ast.With) and any(isinstance(i.context_expr, ast.Call) and (ast.unparse(i.context_expr.func).endswith("suppress")) and
+                                                 any(isinstance(a, ast.Name) and a.id in ("Exception", "BaseException") for a in i.context_expr.args) for i in st.items):
+                continue  # contextlib.suppress(Exception): the same catch-all
+            if isinstance(st, (ast.FunctionDef, ast.ClassDef, ast.Import, ast.ImportFrom, ast.Pass, ast.Global)):
+                continue
+            if isinstance(st, (ast.If, ast.While)):
+                scan_expr(st.test)
+                scan(st.body)
+                scan(st.orelse)
+            elif isinstance(st, ast.For):
+                scan_expr(st.iter)
+                scan(st.body)
+                scan(st.orelse)
+            elif isinstance(st, ast.Try):
+                scan(st.body)
+                for h in st.handlers:
+                    scan(h.body)
+                scan(st.orelse)
+                scan(st.finalbody)
+            elif isinstance(st, ast.With):
+                for i in st.items:
+                    scan_expr(i.context_expr)
+                scan(st.body)
+            elif isinstance(st, ast.Expr) and isinstance(st.value, ast.Constant):
+                continue
+            else:
+                for ch in ast.iter_child_nodes(st):
+                    if isinstance(ch, ast.expr):
+                        scan_expr(ch)
+    scan(fnode.body)
     return out
 
 
